@@ -132,3 +132,8 @@ Fixpoint listen_before_known (l : list string) : bool :=
 Lemma entry_sites_in_sync :
   model_entry_sites = DialErrors.entry_sites /\ listen_before_known DialErrors.new_call_order = true.
 Proof. split; reflexivity. Qed.
+
+(* coq/C10/IpClass.v transcribes the special ranges of this version of the ip_network crate *)
+Definition ip_network_0_4_1 : string := "0.4.1".
+Lemma ip_network_version_pinned : DialErrors.ip_network_version = ip_network_0_4_1.
+Proof. reflexivity. Qed.
